@@ -3,6 +3,7 @@ package main
 import (
 	"fmt"
 	"go/token"
+	"go/types"
 	"regexp"
 	"sort"
 	"strings"
@@ -224,6 +225,16 @@ func ruleC05_2(c *Ctx) {
 					stepMap = extractOf(lk, 0)
 				} else {
 					stepMap = lk
+				}
+			}
+		}
+	}
+	if stepMap == nil {
+		// the lookup done by an unexported helper that hands the element back unchanged
+		for _, call := range allCalls(f) {
+			if mi, _, ok := lookupHelper(call.Common().StaticCallee()); ok && call.Common().Args[mi] == ssa.Value(f.Params[1]) {
+				if v := call.Value(); v != nil {
+					stepMap = v
 				}
 			}
 		}
@@ -1920,74 +1931,84 @@ func ruleC05_5(c *Ctx) {
 			c.bad(R, fn, "ReduceStepsMetadata", e.f.Pos(), "the agreement check is never called")
 			continue
 		}
-		fr := e.f
-		if g := red.inner(); g != nil {
-			fr = g
-		}
-		isVerified := func(v ssa.Value, at ssa.Instruction) bool {
-			n, i := c.deepProducer(v, at)
-			return i == 0 && (n == "in_toto.VerifyLinkSignatureThesholds" || n == "in_toto.VerifySublayouts")
-		}
 		n := 0
-		for _, call := range allCalls(fr) {
-			if _, isDefer := call.(*ssa.Defer); isDefer {
-				continue
-			}
-			// only calls that can run before the agreement check has finished
-			if call != red.call && instrDominates(red.call, call) {
-				continue
-			}
-			g := call.Common().StaticCallee()
-			args := callArgs(call)
-			ctx := make([]pc, len(args))
-			tainted := false
-			for i, a := range args {
-				if hasRefs(a.Type()) && isVerified(a, call) {
-					ctx[i] = pc{isRefType(a.Type()), true}
-					tainted = true
+		// every frame from the entry point down to the one that holds the agreement check: the calls that can run
+		// before (or are) the step towards ReduceStepsMetadata; values of a helper frame are read through its parameters
+		for lvl := 0; lvl <= len(red.path); lvl++ {
+			lvl := lvl
+			fr := red.frameFn(lvl)
+			barrier := red.elem(lvl)
+			isVerified := func(v ssa.Value, at ssa.Instruction) bool {
+				if lvl > 0 {
+					v, at = red.mapUp(v, at, lvl)
 				}
+				n, i := c.deepProducer(v, at)
+				return i == 0 && (n == "in_toto.VerifyLinkSignatureThesholds" || n == "in_toto.VerifySublayouts")
 			}
-			if !tainted {
-				continue
-			}
-			n++
-			name := calleeName(call)
-			if g == nil || g.Blocks == nil {
-				c.undecided(R, fn, "call "+name+" with the verified links", call.Pos(), "callee is not analysable")
-				continue
-			}
-			a := newA4(c.Prog)
-			s := a.analyse(g, ctx, nil)
-			var bad []string
-			keptW, _ := a4FilterReviewed(s.writes)
-			for _, w := range keptW {
-				if name == "in_toto.VerifySublayouts" && w.fn == g {
-					if _, isMU := w.instr.(*ssa.MapUpdate); isMU {
-						continue // the summary link replaces the sublayout (shape decided by R-C08-3)
-					}
-				}
-				bad = append(bad, fmt.Sprintf("%s at %s (%s)", w.path, c.pos(w.instr.Pos()), strings.Join(w.chain, " -> ")))
-			}
-			c.check(len(bad) == 0, R, fn, "call "+name+" leaves the verified links as they are", call.Pos(), fmt.Sprintf("%d function contexts analysed, no write through the verified link map", len(a.memo)),
-				"the verified links are modified before the agreement check has compared them: "+strings.Join(bad, "; ")+" — links that differ can be made equal (or equal ones different) before reflect.DeepEqual sees them")
-		}
-		// direct writes in the frame itself
-		for _, b := range fr.Blocks {
-			for _, in := range b.Instrs {
-				if instrDominates(red.call, in) {
+			for _, call := range allCalls(fr) {
+				if _, isDefer := call.(*ssa.Defer); isDefer {
 					continue
 				}
-				var base ssa.Value
-				switch x := in.(type) {
-				case *ssa.MapUpdate:
-					base = x.Map
-				case *ssa.Store:
-					if _, isAlloc := addrRoot(x.Addr).(*ssa.Alloc); !isAlloc {
-						base = x.Addr
+				// only calls that can run before the agreement check has finished
+				if call != barrier && instrDominates(barrier, call) {
+					continue
+				}
+				// the step into the next frame is analysed in that frame
+				if lvl < len(red.path) && call == barrier {
+					continue
+				}
+				g := call.Common().StaticCallee()
+				args := callArgs(call)
+				ctx := make([]pc, len(args))
+				tainted := false
+				for i, a := range args {
+					if hasRefs(a.Type()) && isVerified(a, call) {
+						ctx[i] = pc{isRefType(a.Type()), true}
+						tainted = true
 					}
 				}
-				if base != nil && derives(base, func(v ssa.Value) bool { return isVerified(v, in) }, false) {
-					c.bad(R, fn, "direct write into the verified links", in.Pos(), "the pipeline writes into the verified link map before the agreement check")
+				if !tainted {
+					continue
+				}
+				n++
+				name := calleeName(call)
+				if g == nil || g.Blocks == nil {
+					c.undecided(R, fn, "call "+name+" with the verified links", call.Pos(), "callee is not analysable")
+					continue
+				}
+				a := newA4(c.Prog)
+				s := a.analyse(g, ctx, nil)
+				var bad []string
+				keptW, _ := a4FilterReviewed(s.writes)
+				for _, w := range keptW {
+					if name == "in_toto.VerifySublayouts" && w.fn == g {
+						if _, isMU := w.instr.(*ssa.MapUpdate); isMU {
+							continue // the summary link replaces the sublayout (shape decided by R-C08-3)
+						}
+					}
+					bad = append(bad, fmt.Sprintf("%s at %s (%s)", w.path, c.pos(w.instr.Pos()), strings.Join(w.chain, " -> ")))
+				}
+				c.check(len(bad) == 0, R, fn, "call "+name+" leaves the verified links as they are", call.Pos(), fmt.Sprintf("%d function contexts analysed, no write through the verified link map", len(a.memo)),
+					"the verified links are modified before the agreement check has compared them: "+strings.Join(bad, "; ")+" — links that differ can be made equal (or equal ones different) before reflect.DeepEqual sees them")
+			}
+			// direct writes in the frame itself
+			for _, b := range fr.Blocks {
+				for _, in := range b.Instrs {
+					if instrDominates(barrier, in) {
+						continue
+					}
+					var base ssa.Value
+					switch x := in.(type) {
+					case *ssa.MapUpdate:
+						base = x.Map
+					case *ssa.Store:
+						if _, isAlloc := addrRoot(x.Addr).(*ssa.Alloc); !isAlloc {
+							base = x.Addr
+						}
+					}
+					if base != nil && derives(base, func(v ssa.Value) bool { return isVerified(v, in) }, false) {
+						c.bad(R, fn, "direct write into the verified links", in.Pos(), "the pipeline writes into the verified link map before the agreement check")
+					}
 				}
 			}
 		}
@@ -2162,4 +2183,44 @@ func (c *Ctx) coverLoops(f *ssa.Function, m ssa.Value) (loops []coverLoop, tails
 		}
 	}
 	return
+}
+
+// lookupHelper: g is an unexported function of the module whose single result is, on every return, the element of its
+// map parameter mi under its parameter ki (m[k], comma-ok or not) and nothing else.
+func lookupHelper(g *ssa.Function) (mi, ki int, ok bool) {
+	if g == nil || g.Blocks == nil || g.Parent() != nil || g.Object() == nil || g.Object().Exported() || g.Signature.Recv() != nil || g.Signature.Results().Len() != 1 {
+		return 0, 0, false
+	}
+	mi, ki = -1, -1
+	rets := returnsOf(g)
+	if len(rets) == 0 {
+		return 0, 0, false
+	}
+	for _, r := range rets {
+		v := resolve(r.Results[0], r)
+		if ex, isEx := v.(*ssa.Extract); isEx && ex.Index == 0 {
+			v = ex.Tuple
+		}
+		lk, isLk := v.(*ssa.Lookup)
+		if !isLk {
+			return 0, 0, false
+		}
+		m, k := -1, -1
+		for i, p := range g.Params {
+			if lk.X == ssa.Value(p) {
+				m = i
+			}
+			if lk.Index == ssa.Value(p) {
+				k = i
+			}
+		}
+		if m < 0 || k < 0 || (mi >= 0 && (mi != m || ki != k)) {
+			return 0, 0, false
+		}
+		if _, isMap := g.Params[m].Type().Underlying().(*types.Map); !isMap {
+			return 0, 0, false
+		}
+		mi, ki = m, k
+	}
+	return mi, ki, true
 }
